@@ -4,7 +4,8 @@ from __future__ import annotations
 import ast
 from typing import Dict, List, Optional, Set, Tuple
 
-from ..cfg import CFG, EXIT
+from ..absint import eval_test
+from ..cfg import CFG, EXIT, symbolic_paths
 from ..exprnorm import norm_test
 from ..report import Run
 from ..src import (AnalysisError, ClassInfo, FuncInfo, Program, call_name, stmt_key,
@@ -285,20 +286,44 @@ def _lookup(prog: Program, run: Run) -> None:
                           "'exactly one candidate of the expected type' tests (e.g. a dictionary "
                           "lookup by a mangled key): an ambiguous or dangling short-name "
                           "reference binds silently", f"{f.module.rel}:{r.lineno}", stmt_key(r))
-    main = [r for r in rets if ast.unparse(r.value) == f"{cname}[0]"]
-    tests = [norm_test(x.test) for x in walk_no_nested(f.node) if isinstance(x, ast.If)]
-    need = [norm_test(ast.parse(f"not {cname}", mode="eval").body),
-            norm_test(ast.parse(f"len({cname}) > 1", mode="eval").body)]
-    alt0 = norm_test(ast.parse(f"len({cname}) == 0", mode="eval").body)
-    alt1 = norm_test(ast.parse(cname, mode="eval").body)  # `if candidates: … else: error`
-    if main and (need[0] in tests or alt0 in tests or alt1 in tests) and need[1] in tests and any(
-            "isinstance" in t for t in tests):
+    # decision table over (number of candidates, expected type): an error is reported unless
+    # there is exactly one candidate of the expected type, and then that candidate is returned
+    paths = symbolic_paths(f.node, opaque=[cname])
+    exp = f.params()[2] if len(f.params()) > 2 else "expected_type"
+    inst = f"isinstance({cname}[0], {exp})"
+
+    def behaviours(count: int, typed: Optional[bool]) -> Set[Tuple[bool, str]]:
+        env: Dict[str, object] = {cname: [0] * count, f"len({cname})": count,
+                                  exp: None if typed is None else "T"}
+        if typed is not None:
+            env[inst] = typed
+        got = set()
+        for p in paths:
+            if all(eval_test(t, env) in (None, pol) for t, pol in p.conds):
+                err = any(isinstance(st, ast.Raise) or (isinstance(st, ast.Expr) and isinstance(
+                    st.value, ast.Call) and call_name(st.value) == "odxraise")
+                    for st in p.trace)
+                got.add((err, ast.unparse(p.retval) if p.retval is not None else "None"))
+        return got or {(True, "raise")}
+    bad = []
+    for count, typed, want_err in ((0, None, True), (0, True, True), (2, None, True),
+                                   (2, True, True), (1, None, False), (1, True, False),
+                                   (1, False, True)):
+        got = behaviours(count, typed)
+        for err, val in sorted(got):
+            if err != want_err:
+                bad.append(f"{count} candidate(s), expected type "
+                           f"{'not given' if typed is None else ('matches' if typed else 'differs')}"
+                           f": {'an error is reported' if err else 'no error is reported'}")
+            elif not err and val != f"{cname}[0]":
+                bad.append(f"{count} candidate(s): returns `{val}` instead of the candidate")
+    if not bad:
         run.ok(R, C, "returns candidates[0] only after: none -> error, several -> error, wrong "
-               "type -> error", f.loc)
+               "type -> error (7 scenarios of the decision table)", f.loc)
     else:
         run.violation(R, C, "uniqueness",
                       "a short-name reference is not required to have exactly one candidate of "
-                      f"the expected type (tests: {tests})", f.loc)
+                      f"the expected type ({'; '.join(sorted(set(bad)))})", f.loc)
 
 
 def _stmt(fn: ast.AST, x: ast.AST) -> ast.stmt:
@@ -377,12 +402,51 @@ def _ownership(prog: Program, run: Run) -> None:
     else:
         run.violation(R, C, "resolves-original", "the raw layer is not resolved against the "
                       "extended copy", f.loc)
-    s = ast.unparse(f.node)
-    if "OdxLinkId(link_id.local_id, self.odx_id.doc_fragments)" in s:
+    # every ID entered into the table of imported objects is OdxLinkId(<imported id>.local_id,
+    # <own fragments>); temporaries are followed to their single definition
+    def resolved(e: ast.AST, depth: int = 0) -> str:
+        if isinstance(e, ast.Name) and depth < 4:
+            defs = [x.value for x in walk_no_nested(f.node) if isinstance(x, ast.Assign) and
+                    len(x.targets) == 1 and isinstance(x.targets[0], ast.Name) and
+                    x.targets[0].id == e.id]
+            if len(defs) == 1:
+                return resolved(defs[0], depth + 1)
+        return ast.unparse(e)
+
+    def rehomed(k: ast.AST) -> bool:
+        if isinstance(k, ast.Name):
+            defs = [x.value for x in ast.walk(f.node) if isinstance(x, ast.Assign) and
+                    len(x.targets) == 1 and isinstance(x.targets[0], ast.Name) and
+                    x.targets[0].id == k.id]
+            # the loop variable re-bound to its re-homed twin
+            return bool(defs) and all(rehomed(d) for d in defs if not isinstance(d, ast.Name))
+        return isinstance(k, ast.Call) and call_name(k) == "OdxLinkId" and len(k.args) == 2 and \
+            isinstance(k.args[0], ast.Attribute) and k.args[0].attr == "local_id" and \
+            resolved(k.args[1]) == "self.odx_id.doc_fragments"
+    imp = None
+    for x in upd[:1]:
+        if x.args and isinstance(x.args[0], ast.Name):
+            imp = x.args[0].id
+    keys: List[ast.AST] = []
+    if imp is not None:
+        for x in ast.walk(f.node):
+            if isinstance(x, ast.Assign) and isinstance(x.targets[0], ast.Subscript) and \
+                    ast.unparse(x.targets[0].value) == imp:
+                keys.append(x.targets[0].slice)
+            if isinstance(x, ast.Call) and isinstance(x.func, ast.Attribute) and x.func.attr in (
+                    "update",) and ast.unparse(x.func.value) == imp and x.args:
+                a0 = x.args[0]
+                if isinstance(a0, ast.DictComp):
+                    keys.append(a0.key)
+                else:
+                    keys.append(a0)  # something we cannot see through
+    if keys and all(rehomed(k) for k in keys):
         run.ok(R, C, "imported IDs are re-homed to the importing layer's fragments", f.loc)
     else:
         run.violation(R, C, "rehome", "imported IDs are not re-homed to the importing layer's "
-                      "document fragments", f.loc)
+                      "document fragments"
+                      + (f" (`{ast.unparse([k for k in keys if not rehomed(k)][0])}`)"
+                         if keys else ""), f.loc)
 
 
 # ----------------------------------------------------------------------- R3
